@@ -103,6 +103,23 @@ func (l *vGLazy) Init() error {
 	return nil
 }
 
+// an eager user post-processor that is itself a component with an injection point and an Init
+type vGProc struct {
+	g       *vG
+	C       *vGC `wire:""`
+	inited  bool
+	cAtInit bool
+}
+
+func (p *vGProc) Naming() string { return "gProc" }
+func (p *vGProc) Init() error {
+	p.inited = true
+	p.cAtInit = p.C != nil
+	return nil
+}
+func (p *vGProc) PostProcessBeforeInitialization(c any, n string) (any, error) { return c, nil }
+func (p *vGProc) PostProcessAfterInitialization(c any, n string) (any, error)  { return c, nil }
+
 type vGRunner struct {
 	g *vG
 	D *vGD `wire:""`
@@ -126,7 +143,8 @@ func VerifAppGraph() {
 	run := &vGRunner{g: g}
 	withC := nd.Bool() // C missing: required points of A and B cannot be satisfied
 	withOpt := nd.Bool()
-	comps := []any{a, b, d, lazy, run}
+	proc := &vGProc{g: g}
+	comps := []any{a, b, d, lazy, run, proc}
 	if withC {
 		comps = append(comps, c)
 	}
@@ -182,6 +200,7 @@ func VerifAppGraph() {
 	nd.Assert(a.C == c && b.C == c, "C01: both holders of a diamond see one instance")
 	nd.Assert(d.A == vSvc(a) && d.ByName == vSvc(c), "C07: by-name points receive exactly the named component")
 	nd.Assert(a.Self == nil || a.Self == vSvc(a), "C02: a by-name point naming its own holder is never wired to anything else")
+	nd.Assert(proc.C == c && proc.inited && proc.cAtInit, "C05: an eager post-processor component is populated before its own Init, like any other component")
 	nd.Assert(b.Blue == vSvc(c), "C08: only the component with the requested qualifier is injected")
 	nd.Assert(b.Pick == vSvc(a) || b.Pick == vSvc(c), "C06: a single-valued interface point receives one of the other implementers, never its holder")
 	if withOpt {
